@@ -1,6 +1,7 @@
 (* Properties/C12.v — pinned statements only. *)
 From Boreal Require Import Base.Prelude Base.ListX Base.Bytes Model.Literals Model.Ac Model.AcScan
-  Proofs.AcScanDecomp.
+  Proofs.AcScanDecomp Proofs.AcScanAppend.
+From Coq Require Import Permutation.
 
 (* One automaton over the lower-cased, de-duplicated atoms of ALL strings, fanned out to
    (variable, literal, slice offset): each string gets exactly what it computes from its own atoms
@@ -36,6 +37,56 @@ Theorem C12_region_per_variable :
     = map (fun var => scan_var_region prm var rg (g var)) vars.
 Proof. exact scan_region_per_variable. Qed.
 
+(* ---- sets of strings: A compiled together with any other strings ---- *)
+(* A and B together: A's results, then B's, each what it is alone *)
+Theorem C12_union :
+  forall prm va vb mem,
+    scan_direct prm (va ++ vb) mem = scan_direct prm va mem ++ scan_direct prm vb mem.
+Proof. exact scan_direct_app. Qed.
+
+Theorem C12_union_fragmented :
+  forall prm va vb regions,
+    scan_fragmented prm (va ++ vb) regions
+    = scan_fragmented prm va regions ++ scan_fragmented prm vb regions.
+Proof. exact scan_fragmented_app. Qed.
+
+(* unrelated strings before and after A: the slice belonging to A is exactly A alone *)
+Theorem C12_embedded :
+  forall prm pre va post mem,
+    firstn (length va) (skipn (length pre) (scan_direct prm (pre ++ va ++ post) mem))
+    = scan_direct prm va mem.
+Proof. exact scan_direct_embedded. Qed.
+
+Theorem C12_embedded_fragmented :
+  forall prm pre va post regions,
+    firstn (length va) (skipn (length pre) (scan_fragmented prm (pre ++ va ++ post) regions))
+    = scan_fragmented prm va regions.
+Proof. exact scan_fragmented_embedded. Qed.
+
+(* the order in which strings are compiled permutes the results and changes none *)
+Theorem C12_order :
+  forall prm va vb mem,
+    Permutation va vb -> Permutation (scan_direct prm va mem) (scan_direct prm vb mem).
+Proof. exact scan_direct_perm. Qed.
+
+Theorem C12_order_fragmented :
+  forall prm va vb regions,
+    Permutation va vb -> Permutation (scan_fragmented prm va regions) (scan_fragmented prm vb regions).
+Proof. exact scan_fragmented_perm. Qed.
+
+(* one string in two different sets, at any positions: the same matches *)
+Theorem C12_same_string :
+  forall prm va vb mem i j var,
+    nth_error va i = Some var -> nth_error vb j = Some var ->
+    nth_error (scan_direct prm va mem) i = nth_error (scan_direct prm vb mem) j.
+Proof. exact scan_direct_same_string. Qed.
+
+Theorem C12_same_string_fragmented :
+  forall prm va vb regions i j var,
+    nth_error va i = Some var -> nth_error vb j = Some var ->
+    nth_error (scan_fragmented prm va regions) i = nth_error (scan_fragmented prm vb regions) j.
+Proof. exact scan_fragmented_same_string. Qed.
+
 (* The rule-level statement (verdicts of the rules of A unchanged by adding independent rules B)
    combines the theorem above with the positional variable alignment and namespace independence of
    C05 (C05_var_alignment, C05_ns_independent); it is checked on the implementation by the
@@ -55,8 +106,26 @@ Example C12_example_shared_atoms :
                       [120;120;97;98;99;100;69;70;32;65;66;67;68;69;70]) = [[2]; [2; 9]; [0]].
 Proof. vm_compute. split; reflexivity. Qed.
 
+(* the set-level statements on a concrete set: the middle string alone, and the set reversed *)
+Example C12_example_embedded :
+  map (fun vm => map sm_off vm)
+      (scan_direct {| p_match_max_length := 8; p_max_nb_matches := 10 |} (firstn 1 (skipn 1 ex_vars))
+                   [120;120;97;98;99;100;69;70;32;65;66;67;68;69;70]) = [[2; 9]]
+  /\ map (fun vm => map sm_off vm)
+         (scan_direct {| p_match_max_length := 8; p_max_nb_matches := 10 |} (rev ex_vars)
+                      [120;120;97;98;99;100;69;70;32;65;66;67;68;69;70]) = [[0]; [2; 9]; [2]].
+Proof. vm_compute. split; reflexivity. Qed.
+
 Print Assumptions C12_per_variable.
 Print Assumptions C12_per_variable_fragmented.
 Print Assumptions C12_alone.
 Print Assumptions C12_candidates_own.
 Print Assumptions C12_region_per_variable.
+Print Assumptions C12_union.
+Print Assumptions C12_union_fragmented.
+Print Assumptions C12_embedded.
+Print Assumptions C12_embedded_fragmented.
+Print Assumptions C12_order.
+Print Assumptions C12_order_fragmented.
+Print Assumptions C12_same_string.
+Print Assumptions C12_same_string_fragmented.
